@@ -104,6 +104,31 @@ Theorem C20_sync_runner : forall s,
 Proof. exact sync_runner. Qed.
 Print Assumptions C20_sync_runner.
 
+(* ... for EVERY exception class, including the classes the helpers themselves raise: the runner raises
+   DeferredNotFired exactly for a Deferred without a result; a fired Deferred whose failure IS a
+   DeferredNotFired (or a stage raising it directly) is a caught user error like any other *)
+Theorem C20_sync_notfired_only : forall st, stage_good st ->
+  (forall x, sync_run_user st = URaised x -> x = XNotFired /\ exists d, st = StDeferred d /\ idle d)
+  /\ (forall d, st = StDeferred d -> idle d -> sync_run_user st = URaised XNotFired)
+  /\ (forall e, st = StRaise e \/ st = StDeferred (ready (RErr e)) -> sync_run_user st = UCaught e).
+Proof. exact sync_notfired_only. Qed.
+Print Assumptions C20_sync_notfired_only.
+
+(* exception identity is not confused with state: a Deferred failed WITH DeferredNotFired is 'failed', not
+   'no result'; extract_result raises that failure's exception (class DeferredNotFired) and the runner reports it
+   as caught, while on an unfired Deferred the runner itself raises *)
+Example C20_example_notfired :
+  let d := ready (RErr notfired_tok) in
+  verdict MNoResult d [] = false /\ verdict (MFailed (IIs notfired_tok)) d [] = true
+  /\ fst (fst (extract_result d [])) = Raised XNotFired
+  /\ fst (fst (extract_result new_deferred [])) = Raised XNotFired
+  /\ sync_run_user (StDeferred d) = UCaught notfired_tok
+  /\ sync_run_user (StRaise notfired_tok) = UCaught notfired_tok
+  /\ sync_run_user (StDeferred (ready (RErr impossible_tok))) = UCaught impossible_tok
+  /\ sync_run_user (StDeferred new_deferred) = URaised XNotFired
+  /\ spec_okb (ISync 1 (inr notfired_tok)) (model (ISync 1 (inr notfired_tok))) = true.
+Proof. vm_compute. repeat split. Qed.
+
 (* non-vacuity: callbacks before, a match on the unfired Deferred, a chained Deferred, a failure inspected
    behind it, callbacks after; the recorders see the same with and without the matches; nothing unhandled *)
 Example C20_example :
